@@ -5,7 +5,7 @@ from ..leandrv import Driver
 
 MODULE = 'Bluebell.Props.C03'
 THEOREMS = ['Bluebell.C03_merge_keeps_text', 'Bluebell.C03_normalise_keeps_text', 'Bluebell.C03_unreferenced_block_keeps_text', 'Bluebell.C03_eids_titles_keep_text', 'Bluebell.C03_examples', 'Bluebell.C03_xml_building_keeps_text',
-            'Bluebell.C03_plain_line_is_its_text', 'Bluebell.C03_ordinary_first_chars', 'Bluebell.line_of_plain']
+            'Bluebell.C03_plain_line_is_its_text', 'Bluebell.C03_ordinary_first_chars', 'Bluebell.line_of_plain', 'Bluebell.C03_mixed_line_to_element']
 TOKEN = re.compile('w\\d+|ש\\d+ם|ب\\d+ت|\U00010348\\d+\U0001F600|ж\\d+я|\u212b\\d+e\u0301')
 SKIP_ATTRS = {'eId', 'by'}
 ATTR_TOKENS = set()   # words found in attribute values by the last out_tokens call (no document order among them)
